@@ -108,7 +108,12 @@ pub fn generate(seed: u64, idx: u64) -> Scenario {
                     (cur.len()..cur.len(), rng.pick(&ADJ).to_string())
                 }
             };
-            let e = gen::to_lsp_edit(&cur, r, repl);
+            let e = if rng.chance(20) {
+                // the whole text replaced by a change without range
+                Edit { range: None, text: if rng.chance(500) { gen::document(&mut rng, kind) } else { format!("{cur} ") } }
+            } else {
+                gen::to_lsp_edit(&cur, r, repl)
+            };
             gen::apply(&mut cur, &e);
             edits.push(e);
         }
